@@ -17,7 +17,7 @@ import shutil
 
 from hypothesis import strategies as st
 
-from vf.core import VERIF_DIR, EnumPart, HarnessError, HypPart, Oracle, SkipCase
+from vf.core import VERIF_DIR, EnumPart, HarnessError, HypPart, Oracle, SkipCase, spsdk_frame
 from vf.gen import dbenum
 from vf.gen import dbenum_bimg as DBI
 from vf.ref import bimg_layout as L
@@ -99,6 +99,7 @@ def _state() -> dict:
             classes.setdefault((t["mt"],) + tab.key(), []).append(i)
         _S["tuples"], _S["tables"] = tuples, tables
         _S["classes"] = [classes[k] for k in sorted(classes, key=repr)]
+        _S["reps"] = {members[0] for members in _S["classes"]}
         _S["index"] = {(t["dev"], t["rev"], t["mt"]): i for i, t in enumerate(tuples)}
     return _S
 
@@ -573,23 +574,23 @@ def _evaluate(case, o: Oracle, tab: L.Table, m: Mat, eff: int, tname: str) -> No
         if v is not None:
             expect[n] = v
     o.label("parse:mem_type")
-    parsed = None
-    with o.spsdk("parse", "with_mem_type"):
-        parsed = BootableImage.parse(data, family=dev, mem_type=MemoryType.from_label(mt), revision=rev_arg)
+    parsed = _parse(o, BootableImage, data, dev, MemoryType.from_label(mt), rev_arg, eff, tname, req, "with_mem_type")
     if parsed is not None:
         _compare_parsed(o, parsed, expect, present, eff, tname, req, "with_mem_type")
     if case.get("no_mt", True):
         o.label("parse:no_mem_type")
-        parsed2 = None
-        with o.spsdk("parse", "without_mem_type"):
-            parsed2 = BootableImage.parse(data, family=dev, mem_type=None, revision=rev_arg)
+        parsed2 = _parse(o, BootableImage, data, dev, None, rev_arg, eff, tname, req, "without_mem_type")
         if parsed2 is not None:
             with o.spsdk("parse", "without_mem_type"):
                 got_mt = parsed2.mem_type.label
             other = _state()["index"].get((dev, rev, got_mt))
-            same = other is not None and _state()["tables"][other].key() == tab.key()
-            if same:
+            otab = _state()["tables"][other] if other is not None else None
+            if otab is not None and otab.key() == tab.key():
                 _compare_parsed(o, parsed2, expect, present, eff, tname, req, "without_mem_type")
+            elif otab is not None and eff == 0 and all(n in otab.raw and otab.raw[n] == tab.raw[n] for n in present):
+                # another memory type that puts every merged segment at the same place: the same bytes must come back
+                o.label("parse:other_mem_type_same_places")
+                _compare_parsed(o, parsed2, expect, present, eff, tname, req, "without_mem_type", extras=False)
             else:
                 o.label("parse:ambiguous_mem_type")
 
@@ -604,7 +605,27 @@ def _seg_class(n: str) -> str:
     return n
 
 
-def _compare_parsed(o: Oracle, parsed, expect: dict, present: list, eff: int, tname: str, req, how: str) -> None:
+def _parse(o: Oracle, BootableImage, data: bytes, dev: str, mem_type, rev_arg: str, eff: int, tname: str, req, how: str):
+    """BootableImage.parse as `nxpimage bootable-image parse` calls it; a refusal is recorded with the reason the segment
+    parsers / verifier give for the interpretation the image was made with (diagnosis only, not part of the verdict)."""
+    try:
+        return BootableImage.parse(data, family=dev, mem_type=mem_type, revision=rev_arg)
+    except Exception as exc:  # noqa: BLE001 - every exception is a failure of this sub-oracle
+        diag = ""
+        if mem_type is not None:
+            try:
+                probe = BootableImage(dev, mem_type, rev_arg, eff)
+                probe._parse(data)
+                ver = probe.verify()
+                diag = "segments parse, verifier: " + " / ".join(x.strip() for x in ver.draw(colorize=False).splitlines() if "rror" in x)[:300] if ver.has_errors else "this interpretation parses and verifies"
+            except Exception as exc2:  # noqa: BLE001
+                diag = "%s: %s" % (type(exc2).__name__, str(exc2)[:200])
+        o.fail("parse", "%s:exc:%s" % (how, type(exc).__name__), "%s init %r (%d bytes): %s%s" % (
+            tname, req, len(data), str(exc)[:200], " | made-with interpretation (init 0x%x): %s" % (eff, diag) if diag else ""), where=spsdk_frame(exc))
+        return None
+
+
+def _compare_parsed(o: Oracle, parsed, expect: dict, present: list, eff: int, tname: str, req, how: str, extras: bool = True) -> None:
     with o.spsdk("parse_segments", how):
         got = {s.NAME.label: bytes(s.export()) for s in parsed.segments}
         if parsed.init_offset != eff:
@@ -621,7 +642,7 @@ def _compare_parsed(o: Oracle, parsed, expect: dict, present: list, eff: int, tn
             if got[n] != expect[n]:
                 o.fail("parse_segments", "bytes:%s:%s" % (_seg_class(n), how), "%s init %r: segment %s comes back changed: %s" % (tname, req, n, _diff(got[n], expect[n])))
                 break
-        extra = sorted(set(got) - set(present))
+        extra = sorted(set(got) - set(present)) if extras else []
         o.check("parse_segments", not extra, "extra:" + how, "%s init %r: parse reports segments that were not merged: %s" % (tname, req, extra))
 
 
@@ -645,7 +666,10 @@ def _nominal_segs(tab: L.Table, salt: bytes, only_app: bool = False) -> dict:
     return segs
 
 
-def _subcases(i: int) -> list:
+def _subcases(i: int, tier: str = "thorough") -> list:
+    """A: all segments / init 0;  B: all segments / each initial-segment offset;  D: a number just below the first such
+    offset (rounds up);  C: application only.  The quick tier evaluates C and D on one tuple per table class plus a fixed
+    quarter of the others (A and B on every tuple)."""
     s = _state()
     t, tab = s["tuples"][i], s["tables"][i]
     salt = _h("c14", t["dev"], t["rev"], t["mt"])
@@ -658,9 +682,10 @@ def _subcases(i: int) -> list:
             at = [n for n in tab.names if n in L.INIT_SEGMENTS and tab.is_static(n) and tab.static_offset(n) == c]
             init = at[0]
         out.append(dict(base, init=init, segs=_nominal_segs(tab, salt)))
-    if cands:
+    extra = tier != "quick" or i in s["reps"] or salt[9] % 4 == 0
+    if cands and extra:
         out.append(dict(base, init=cands[0] - 1, segs=_nominal_segs(tab, salt), no_mt=False))
-    if len(tab.names) > 1:
+    if len(tab.names) > 1 and extra:
         out.append(dict(base, init=0, segs=_nominal_segs(tab, salt, only_app=True)))
     return out
 
@@ -668,40 +693,38 @@ def _subcases(i: int) -> list:
 N_BUCKETS = 16
 
 
-def _enum_items() -> list:
+def _enum_items(tier: str) -> list:
     """All sub-cases of all tuples, ordered so that the runner's strided sharding (item i -> shard i mod n, n | 16) keeps
     the tuples of one device in one worker (its payloads are built once)."""
-    if "items" not in _S:
+    key = "items:" + ("quick" if tier == "quick" else "thorough")
+    if key not in _S:
         s = _state()
         groups: dict = {}
-        rep = {members[0] for members in s["classes"]}
         for i, t in enumerate(s["tuples"]):
             cheap = "xmcd" not in s["tables"][i].names
-            for c in _subcases(i):
+            for c in _subcases(i, tier):
                 if "no_mt" not in c:
-                    c["no_mt"] = cheap or i in rep
+                    c["no_mt"] = cheap or i in s["reps"] or tier != "quick"
                 groups.setdefault(t["dev"], []).append(c)
         buckets: list = [[] for _ in range(N_BUCKETS)]
         for dev in sorted(groups, key=lambda d: (-len(groups[d]), d)):
             min(buckets, key=len).extend(groups[dev])
         items = []
-        k = 0
         while any(buckets):
             for b in range(N_BUCKETS):
                 src = buckets[b] if buckets[b] else max(buckets, key=len)
                 if src:
                     items.append(src.pop(0))
-            k += 1
-        _S["items"] = items
-    return _S["items"]
+        _S[key] = items
+    return _S[key]
 
 
 def _enum_count(tier: str) -> int:
-    return len(_enum_items())
+    return len(_enum_items(tier))
 
 
 def _enum_item(tier: str, i: int):
-    return dict(_enum_items()[i])
+    return dict(_enum_items(tier)[i])
 
 
 # ====================================================================== part 2: Hypothesis over subsets / sizes / initial offsets
@@ -715,7 +738,11 @@ def _size_strategy(window: int, gap):
 
 def _layout_strategy():
     s = _state()
-    classes = s["classes"]
+    # table classes with more segments have more to vary: they are drawn more often
+    classes = []
+    for members in s["classes"]:
+        k = len(s["tables"][members[0]].names)
+        classes += [members] * (1 if k == 1 else 3 if k <= 3 else 6)
 
     @st.composite
     def build(draw):
@@ -878,5 +905,5 @@ def parts(ctx):
     return [
         EnumPart("golden", _golden_count, lambda tier, i: {"golden": GOLDEN[i][0]}, run_golden),
         EnumPart("tuples", _enum_count, _enum_item, run_case),
-        HypPart("layouts", _layout_strategy, run_layout, {"quick": 1600, "thorough": 60000}),
+        HypPart("layouts", _layout_strategy, run_layout, {"quick": 1200, "thorough": 60000}),
     ]
